@@ -331,6 +331,7 @@ func runC13(p *core.Program, r *core.Report) {
 				}
 			}
 		}
+		emitDefs := eng.SingleDefs(cinfo, emitFd.Body)
 		ast.Inspect(emitFd.Body, func(n ast.Node) bool {
 			c, ok := n.(*ast.CallExpr)
 			if !ok {
@@ -341,8 +342,8 @@ func runC13(p *core.Program, r *core.Report) {
 				return true
 			}
 			if ix, ok := eng.Unparen(sel.X).(*ast.IndexExpr); ok {
-				// X[len(X)-1]
-				if b, ok := eng.Unparen(ix.Index).(*ast.BinaryExpr); ok && b.Op == token.SUB && isLenOf(cinfo, b.X, func(a ast.Expr) bool { return eng.ExprStr(a) == eng.ExprStr(ix.X) }) {
+				// X[len(X)-1], a name given to len(X) looked through
+				if b, ok := emitDefs.Resolve(ix.Index).(*ast.BinaryExpr); ok && b.Op == token.SUB && isLenOf(cinfo, emitDefs.Resolve(b.X), func(a ast.Expr) bool { return eng.ExprStr(a) == eng.ExprStr(ix.X) }) {
 					if tv, ok := cinfo.Types[b.Y]; ok && tv.Value != nil && tv.Value.ExactString() == "1" {
 						topOfStack = true
 					}
@@ -388,7 +389,8 @@ func runC13(p *core.Program, r *core.Report) {
 	// VM lookup
 	_, saved := fetchInfo(vinfo, e.vm)
 	okLookup, lw := false, "no lookup of the location table in Run's recover handler"
-	ast.Inspect(e.vm.Run.Body, func(n ast.Node) bool {
+	// Run's body and the unexported helpers it calls or defers (an extracted recover handler)
+	eng.InspectInlined(p, vinfo, p.Pkg("vm").Types, e.vm.Run.Body, 2, func(fn *types.Func, _ *ast.FuncDecl) bool { return !fn.Exported() && e.vm.Prims[fn] == "" }, func(n ast.Node, _ *eng.InlineCtx, _ int) bool {
 		ix, ok := n.(*ast.IndexExpr)
 		if !ok {
 			return true
@@ -401,7 +403,7 @@ func runC13(p *core.Program, r *core.Report) {
 		if !isMap || !strings.HasSuffix(m.Elem().String(), "file.Location") {
 			return true
 		}
-		if off, ok := saved[eng.ExprStr(ix.Index)]; ok && off == 0 {
+		if off, ok := saved[savedKey(vinfo, ix.Index)]; ok && off == 0 {
 			okLookup, lw = true, "Locations["+eng.ExprStr(ix.Index)+"], which holds the offset of the opcode being executed"
 		} else {
 			lw = "the table is looked up with `" + eng.ExprStr(ix.Index) + "`, which is not the saved offset of the opcode being executed"
@@ -419,7 +421,7 @@ func runC13(p *core.Program, r *core.Report) {
 	// R13.8 (= C12 R12.3): every location a token, node or error carries comes from the lexer's
 	// position fields, which must move in lock-step with the byte offset, one rune at a time
 	positionRules(p, r, "R13.8")
-	r.Floor("R13.4", 7)
+	r.Floor("R13.4", 4) // 7 literals today; merging duplicates into a constructor lowers the count
 	r.Floor("R13.6", 4)
 }
 
